@@ -17,6 +17,10 @@ operators (`parse_prefix_expression`), every binary operator whose infix rule is
   is outside the sub-grammar; `fuel` = out of fuel (also: an infix token without infix function,
   on which the real `while` loop would spin).
 * The AST keeps no parentheses, exactly as the real one.
+* Statement level (`parseStmt`, `parseBlock`, `parseProgram`): `let`, `return`, expression statements, blocks,
+  `while`, `loop`, `break`/`continue` with optional label, `fn` statements; `if`/`else if`/`else` and `fn`
+  literals as expressions (prefix functions `parse_if_expr`, `parse_function_expression`).  Labels, filters,
+  `match`, and every literal kind not listed above stay `skip`.
 -/
 namespace P2sh.Parser
 open P2sh.Gen.ParseRules
@@ -52,7 +56,7 @@ def continues (c : Nat) (tt : String) : Bool :=
   && tt != "Semicolon" && tt != "Eof"
 
 inductive PrefixKind where
-  | none | ident | decimal | boolean | unary | grouped | other
+  | none | ident | decimal | boolean | unary | grouped | ifE | fnE | other
 deriving DecidableEq, Repr
 
 def prefixKind (tt : String) : PrefixKind :=
@@ -63,6 +67,8 @@ def prefixKind (tt : String) : PrefixKind :=
   else if f == "parse_boolean" then .boolean
   else if f == "parse_prefix_expression" then .unary
   else if f == "parse_grouped" then .grouped
+  else if f == "parse_if_expr" then .ifE
+  else if f == "parse_function_expression" then .fnE
   else .other
 
 inductive InfixKind where
@@ -98,6 +104,7 @@ def Tok.ttype : Tok → String
   | .ident _ => "Identifier"
   | .t s => s
 
+mutual
 inductive PExpr where
   | int (n : Nat)
   | bool (b : Bool)
@@ -108,7 +115,24 @@ inductive PExpr where
   | range (op : String) (a b : PExpr)       -- `RangeEx` / `RangeInc`
   | index (a i : PExpr)
   | call (f : PExpr) (args : List PExpr)
-deriving Repr
+  | ifE (c : PExpr) (t : List PStmt) (e : PElse)
+  | fnE (params : List String) (body : List PStmt)
+inductive PElse where
+  | none
+  | els (b : List PStmt)
+  | elif (e : PExpr)                        -- always an `ifE`
+inductive PStmt where
+  | letS (name : String) (e : PExpr)
+  | ret0
+  | ret (e : PExpr)
+  | exprS (e : PExpr)
+  | block (b : List PStmt)
+  | whileS (c : PExpr) (b : List PStmt)
+  | loopS (b : List PStmt)
+  | breakS (label : Option String)
+  | continueS (label : Option String)
+  | fnS (name : String) (params : List String) (body : List PStmt)
+end
 
 inductive Res (α : Type) where
   | ok (a : α)
@@ -153,6 +177,40 @@ def boolAtom : Tok → Res PExpr
   | .bool b => .ok (.bool b)
   | _ => .skip
 
+def lowestRank : Nat := rankOf "Lowest"
+
+/-- skip one `;` (`if self.peek_token_is(Semicolon) { self.next_token() }`) -/
+def skipSemi (ts : List Tok) : List Tok := if peekIs "Semicolon" ts then ts.tail else ts
+
+/-- the literal of the identifier token at the head -/
+def identOf : List Tok → String
+  | .ident s :: _ => s
+  | _ => ""
+
+/-- the `while self.peek_token_is(Comma)` part of `parse_function_params`; `ts` starts with the peek token.
+The real code takes ANY token as a parameter name; a non-identifier there is `skip`. -/
+def parseParamsTail : List Tok → List String → Res (List String × List Tok)
+  | c :: p :: rest, acc =>
+    if c.ttype == "Comma" then
+      match p with
+      | .ident s => parseParamsTail rest (acc ++ [s])
+      | _ => .skip
+    else if c.ttype == "RightParen" then .ok (acc, p :: rest) else .err
+  | [c], acc => if c.ttype == "Comma" then .skip else if c.ttype == "RightParen" then .ok (acc, []) else .err
+  | [], _ => .err
+
+/-- `parse_function_params`; `ts` starts with the token after `(` -/
+def parseParams (ts : List Tok) : Res (List String × List Tok) :=
+  if peekIs "RightParen" ts then .ok ([], ts.tail)
+  else
+    match ts with
+    | .ident s :: rest => parseParamsTail rest [s]
+    | _ => .skip
+
+/-- optional label of `break` / `continue`, then an optional `;` -/
+def labelOf (rest : List Tok) : Option String × List Tok :=
+  if peekIs "Identifier" rest then (some (identOf rest), skipSemi rest.tail) else (none, skipSemi rest)
+
 mutual
 /-- `parse_expression(precedence = c)`; `ts` starts with the *current* token -/
 def parseExpr : Nat → Nat → List Tok → Res (PExpr × List Tok)
@@ -176,6 +234,14 @@ def parseExpr : Nat → Nat → List Tok → Res (PExpr × List Tok)
           if peekIs "RightParen" rest' then
             if peekIs "Assign" rest'.tail then .err else loop fuel c e rest'.tail
           else .err
+      | .ifE => (parseIf fuel rest).bind fun (e, rest') => loop fuel c e rest'
+      | .fnE =>
+        if peekIs "LeftParen" rest then
+          (parseParams rest.tail).bind fun (ps, r) =>
+            if peekIs "LeftBrace" r then
+              (parseBlock fuel [] r.tail).bind fun (b, r2) => loop fuel c (.fnE ps b) r2
+            else .err
+        else .err
 /-- the `while self.peek_valid_expression(precedence)` loop; `ts` starts with the *peek* token -/
 def loop : Nat → Nat → PExpr → List Tok → Res (PExpr × List Tok)
   | 0, _, _, _ => .fuel
@@ -214,7 +280,74 @@ def parseArgsTail : Nat → List PExpr → List Tok → Res (List PExpr × List 
       (parseExpr fuel assignRank ts.tail).bind fun (e, rest') => parseArgsTail fuel (acc ++ [e]) rest'
     else if peekIs "RightParen" ts then .ok (acc, ts.tail)
     else .err
+/-- `parse_if_expr`; `ts` starts with the token after `if`.  (`else` followed by neither `if` nor `{`
+gives `Expression::Invalid` WITHOUT a recorded error: `skip`.) -/
+def parseIf : Nat → List Tok → Res (PExpr × List Tok)
+  | 0, _ => .fuel
+  | fuel+1, ts =>
+    (parseExpr fuel assignRank ts).bind fun (c, r1) =>
+      if peekIs "LeftBrace" r1 then
+        (parseBlock fuel [] r1.tail).bind fun (t, r2) =>
+          if peekIs "Else" r2 then
+            if peekIs "If" r2.tail then
+              (parseIf fuel r2.tail.tail).bind fun (e, r3) => .ok (.ifE c t (.elif e), r3)
+            else if peekIs "LeftBrace" r2.tail then
+              (parseBlock fuel [] r2.tail.tail).bind fun (b, r3) => .ok (.ifE c t (.els b), r3)
+            else .skip
+          else .ok (.ifE c t .none, r2)
+      else .err
+/-- `parse_block_statement`; `ts` starts with the token after `{`.  A block ended by `Eof` is accepted
+without an error, as in the code. -/
+def parseBlock : Nat → List PStmt → List Tok → Res (List PStmt × List Tok)
+  | 0, _, _ => .fuel
+  | fuel+1, acc, ts =>
+    if peekIs "RightBrace" ts then .ok (acc, ts.tail)
+    else if peekIs "Eof" ts then .ok (acc, ts.tail)
+    else (parseStmt fuel ts).bind fun (s, rest) => parseBlock fuel (acc ++ [s]) rest
+/-- `parse_statement`; `ts` starts with the current token, the result with the token after the statement -/
+def parseStmt : Nat → List Tok → Res (PStmt × List Tok)
+  | 0, _ => .fuel
+  | fuel+1, ts =>
+    match ts with
+    | [] => .err
+    | t :: rest =>
+      if t.ttype == "Let" then
+        if peekIs "Identifier" rest then
+          if peekIs "Assign" rest.tail then
+            (parseExpr fuel lowestRank rest.tail.tail).bind fun (v, r) => .ok (.letS (identOf rest) v, skipSemi r)
+          else .err
+        else .err
+      else if t.ttype == "Return" then
+        if peekIs "Semicolon" rest || peekIs "RightBrace" rest then .ok (.ret0, skipSemi rest)
+        else (parseExpr fuel lowestRank rest).bind fun (v, r) => .ok (.ret v, skipSemi r)
+      else if t.ttype == "Loop" then
+        if peekIs "LeftBrace" rest then (parseBlock fuel [] rest.tail).bind fun (b, r) => .ok (.loopS b, r)
+        else .err
+      else if t.ttype == "While" then
+        (parseExpr fuel lowestRank rest).bind fun (c, r) =>
+          if peekIs "LeftBrace" r then (parseBlock fuel [] r.tail).bind fun (b, r2) => .ok (.whileS c b, r2)
+          else .err
+      else if t.ttype == "Break" then .ok (.breakS (labelOf rest).1, (labelOf rest).2)
+      else if t.ttype == "Continue" then .ok (.continueS (labelOf rest).1, (labelOf rest).2)
+      else if t.ttype == "Function" && peekIs "Identifier" rest then
+        if peekIs "LeftParen" rest.tail then
+          (parseParams rest.tail.tail).bind fun (ps, r) =>
+            if peekIs "LeftBrace" r then
+              (parseBlock fuel [] r.tail).bind fun (b, r2) => .ok (.fnS (identOf rest) ps b, r2)
+            else .err
+        else .err
+      else if t.ttype == "LeftBrace" then (parseBlock fuel [] rest).bind fun (b, r) => .ok (.block b, r)
+      else if t.ttype == "Filter" then .skip
+      else if t.ttype == "Identifier" && peekIs "Colon" rest then .skip
+      else (parseExpr fuel assignRank ts).bind fun (e, r) => .ok (.exprS e, skipSemi r)
 end
+
+/-- `parse_program`; `ts` starts with the current token -/
+def parseProgram : Nat → List PStmt → List Tok → Res (List PStmt)
+  | 0, _, _ => .fuel
+  | fuel+1, acc, ts =>
+    if peekIs "Eof" ts then .ok acc
+    else (parseStmt fuel ts).bind fun (s, rest) => parseProgram fuel (acc ++ [s]) rest
 
 /-! ## from scanner tokens; the expression statement -/
 
@@ -255,6 +388,10 @@ def parseTop (fuel : Nat) (ts : List Tok) : Res PExpr :=
 def parseTokens (ts : List P2sh.Scanner.Token) : Res PExpr :=
   parseTop (2 * ts.length + 4) (ts.map ofToken)
 
+/-- a whole program, with the same fuel -/
+def parseProgramTokens (ts : List P2sh.Scanner.Token) : Res (List PStmt) :=
+  parseProgram (2 * ts.length + 4) [] (ts.map ofToken)
+
 /-! ## canonical text of a tree (shared by driver and harness) -/
 
 def hexDigit (n : Nat) : Char :=
@@ -262,6 +399,14 @@ def hexDigit (n : Nat) : Char :=
 
 def hexOfString (s : String) : String :=
   String.ofList (s.toUTF8.toList.flatMap fun b => [hexDigit (b.toNat / 16), hexDigit (b.toNat % 16)])
+
+def canonNames : List String → String
+  | [] => ""
+  | n :: ns => " " ++ hexOfString n ++ canonNames ns
+
+def canonLabel : Option String → String
+  | none => "-"
+  | some l => hexOfString l
 
 mutual
 def PExpr.canon : PExpr → String
@@ -274,9 +419,29 @@ def PExpr.canon : PExpr → String
   | .range op a b => s!"(range {op} {a.canon} {b.canon})"
   | .index a i => s!"(index {a.canon} {i.canon})"
   | .call f args => s!"(call {f.canon}{canonList args})"
+  | .ifE c t e => s!"(if {c.canon} (blk{canonStmts t}) {e.canon})"
+  | .fnE ps b => s!"(fn (params{canonNames ps}) (blk{canonStmts b}))"
+def PElse.canon : PElse → String
+  | .none => "(noelse)"
+  | .els b => s!"(else (blk{canonStmts b}))"
+  | .elif e => s!"(elif {e.canon})"
 def canonList : List PExpr → String
   | [] => ""
   | e :: es => " " ++ e.canon ++ canonList es
+def PStmt.canon : PStmt → String
+  | .letS n e => s!"(let {hexOfString n} {e.canon})"
+  | .ret0 => "(ret)"
+  | .ret e => s!"(ret {e.canon})"
+  | .exprS e => s!"(expr {e.canon})"
+  | .block b => s!"(blk{canonStmts b})"
+  | .whileS c b => s!"(while {c.canon} (blk{canonStmts b}))"
+  | .loopS b => s!"(loop (blk{canonStmts b}))"
+  | .breakS l => s!"(break {canonLabel l})"
+  | .continueS l => s!"(continue {canonLabel l})"
+  | .fnS n ps b => s!"(fnstmt {hexOfString n} (params{canonNames ps}) (blk{canonStmts b}))"
+def canonStmts : List PStmt → String
+  | [] => ""
+  | s :: ss => " " ++ s.canon ++ canonStmts ss
 end
 
 end P2sh.Parser
